@@ -794,6 +794,33 @@ package cputensor
 //@   implements cputensor.initializerFunc
 //@   yields genRank(self) == len(dims) && sameOn(genShape(self), idx(dims), 0, len(dims)) && forallJ(Q, genAt(self, Q) == boxReal(value)) && scalarGen(self)
 
+// TensorOf's conversion of typed nested slices into the nested []any representation. lvlN(x, src, sizes...): x is an
+// N-level []any tree of the given sizes whose leaves are the corresponding elements of the typed slice src.
+//@ define lvl1(x, row, n) := isS(x) && slen(x) == n && forall(e, 0, n, isF(child(x, e)) && fval(child(x, e)) == row[e])
+//@ define lvl2(x, m, n1, n) := isS(x) && slen(x) == n1 && forall(c, 0, n1, lvl1(child(x, c), m[c], n))
+//@ define lvl3(x, q, n2, n1, n) := isS(x) && slen(x) == n2 && forall(b, 0, n2, lvl2(child(x, b), q[b], n1, n))
+//@ define nestEl1(t, v) := rank(t) == 1 && dim(t, 0) == len(v) && forallJ(J, imp(inb(t, J), el(t, J) == v[J[0]]))
+//@ define nestEl2(t, v) := rank(t) == 2 && dim(t, 0) == len(v) && dim(t, 1) == len(v[0]) && forallJ(J, imp(inb(t, J), el(t, J) == v[J[0]][J[1]]))
+//@ define nestEl3(t, v) := rank(t) == 3 && dim(t, 0) == len(v) && dim(t, 1) == len(v[0]) && dim(t, 2) == len(v[0][0]) && forallJ(J, imp(inb(t, J), el(t, J) == v[J[0]][J[1]][J[2]]))
+//@ define nestEl4(t, v) := rank(t) == 4 && dim(t, 0) == len(v) && dim(t, 1) == len(v[0]) && dim(t, 2) == len(v[0][0]) && dim(t, 3) == len(v[0][0][0])
+//@                         && forallJ(J, imp(inb(t, J), el(t, J) == v[J[0]][J[1]][J[2]][J[3]]))
+//@ define nestEl(t, d) := imp(isF(d), rank(t) == 0 && forallJ(J, el(t, J) == fval(d))) && imp(isNest(d, 1), nestEl1(t, asNest(d, 1))) && imp(isNest(d, 2), nestEl2(t, asNest(d, 2)))
+//@                        && imp(isNest(d, 3), nestEl3(t, asNest(d, 3))) && imp(isNest(d, 4), nestEl4(t, asNest(d, 4)))
+//@ func initTensorFromData
+//@   requires inputOK(data)
+//@   returns fresh
+//@   ensures[C06] t != nil && nestEl(t, data)
+//@   loop 0 invariant forall(e, 0, _i0, isF(data0[e]) && fval(data0[e]) == v[e])
+//@   loop 1 invariant forall(a, 0, _i1, lvl1(data0[a], v[a], d1))
+//@   loop 2 invariant forall(e, 0, _i2, isF(data1[e]) && fval(data1[e]) == v0[e])
+//@   loop 3 invariant forall(a, 0, _i3, lvl2(data0[a], v[a], d1, d2))
+//@   loop 4 invariant forall(b, 0, _i4, lvl1(data1[b], v0[b], d2))
+//@   loop 5 invariant forall(e, 0, _i5, isF(data2[e]) && fval(data2[e]) == v1[e])
+//@   loop 6 invariant forall(a, 0, _i6, lvl3(data0[a], v[a], d1, d2, d3))
+//@   loop 7 invariant forall(b, 0, _i7, lvl2(data1[b], v0[b], d2, d3))
+//@   loop 8 invariant forall(c, 0, _i8, lvl1(data2[c], v1[c], d3))
+//@   loop 9 invariant forall(e, 0, _i9, isF(data3[e]) && fval(data3[e]) == v2[e])
+
 //@ func eyeMatrix
 //@   requires n > 0
 //@   uses filledWF, filledEl, wfExt
@@ -896,6 +923,14 @@ package cputensor
 
 //@ define leafCtx(o, b) := o.gctx != nil && o.gctx.tracked == b && !o.gctx.bpdirty && o.gctx.gradient == nil && len(o.gctx.backEdges) == 0
 //@ define dimsOK(dims) := forall(k, 0, len(dims), dims[k] > 0)
+
+//@ func TensorOf
+//@   public
+//@   requires nestType(data)
+//@   returns fresh
+//@   ensures[C09] iff(err == nil, inputOK(data)) && imp(err != nil, o == nil)
+//@   ensures[C06] imp(err == nil, o != nil && nestEl(o, data))
+//@   ensures[C08] imp(err == nil, leafCtx(o, withGrad))
 
 //@ func Full
 //@   public
